@@ -119,8 +119,71 @@ func runTmoAPICase(ctx *Ctx, delays []time.Duration, cancel map[int]bool, cancel
 	ctx.R.Op(fmt.Sprintf("delays %d", len(delays)), "ok")
 }
 
+// runTmoBacklog: `busy` callbacks are inside their bodies when k more functions fall due together; then the busy
+// ones return.  Each of the k stays in its body until all k have been started (at most 2 s).  k stays below the
+// pool's limit of 10 workers, so all of them must be started promptly: the worker that takes an overdue function
+// has to bring in help for the rest of the backlog.
+func runTmoBacklog(ctx *Ctx, busy, k int) {
+	ctx.R.Case(busy + k)
+	gate := make(chan struct{})
+	var busyStarted, started int32
+	all := make(chan struct{})
+	var futs []timeout.Future
+	for i := 0; i < busy; i++ {
+		ctx.R.Enter()
+		futs = append(futs, timeout.Call(func() {
+			atomic.AddInt32(&busyStarted, 1)
+			select {
+			case <-gate:
+			case <-time.After(5 * time.Second):
+			}
+		}, 0))
+		ctx.R.Leave()
+	}
+	for i := 0; i < 4000 && atomic.LoadInt32(&busyStarted) < int32(busy); i++ {
+		time.Sleep(500 * time.Microsecond)
+	}
+	if atomic.LoadInt32(&busyStarted) < int32(busy) {
+		ctx.R.Quiet("mon C13-every-live-future-fires", fmt.Sprintf("only %d of %d functions scheduled with delay 0 were started within 2 s", atomic.LoadInt32(&busyStarted), busy))
+	}
+	for i := 0; i < k; i++ {
+		ctx.R.Enter()
+		futs = append(futs, timeout.Call(func() {
+			if atomic.AddInt32(&started, 1) == int32(k) {
+				close(all)
+			}
+			select {
+			case <-all:
+			case <-time.After(2 * time.Second):
+			}
+		}, time.Millisecond))
+		ctx.R.Leave()
+	}
+	// the k functions are overdue now; the busy callbacks return (while a worker sits in a callback nobody serves
+	// new arrivals — that much lateness the package allows itself); from here on every callback returns as soon as
+	// the pool has started the whole backlog, so the whole backlog must be started promptly
+	time.Sleep(4 * time.Millisecond)
+	close(gate)
+	select {
+	case <-all:
+	case <-time.After(1500 * time.Millisecond):
+		ctx.R.Quiet("mon C13-every-live-future-fires", fmt.Sprintf("%d functions were overdue together when %d busy callback(s) returned (the pool allows 10 workers); each stays in its body only until all %d have been started, yet only %d were started within 1.5 s: a worker that takes an overdue function must bring in help for the rest of the backlog", k, busy, k, atomic.LoadInt32(&started)))
+	}
+	time.Sleep(5 * time.Millisecond)
+	for _, f := range futs {
+		ctx.R.Enter()
+		f.Cancel()
+		ctx.R.Leave()
+	}
+	ctx.R.Nontrivial("backlog behind busy workers")
+	ctx.R.Op(fmt.Sprintf("backlog %d %d", busy, k), "ok")
+}
+
 func runTmoAPI(ctx *Ctx) {
 	r := ctx.Rnd
+	for _, bk := range [][2]int{{1, 3}, {1, 2}, {2, 2}, {2, 4}, {3, 2}, {1, 6}} {
+		runTmoBacklog(ctx, bk[0], bk[1])
+	}
 	never := time.Duration(math.MaxInt64)
 	far := []time.Duration{never, never - 1, never - time.Second, 1 << 62, 100 * 365 * 24 * time.Hour, 24 * time.Hour, time.Hour}
 	near := []time.Duration{0, -1, -time.Hour, time.Duration(math.MinInt64), 50 * time.Microsecond, time.Millisecond, 2 * time.Millisecond, 5 * time.Millisecond, 10 * time.Millisecond, 20 * time.Millisecond, 30 * time.Millisecond}
